@@ -19,7 +19,7 @@ import (
 // smaller truncates the data silently (copy never panics).
 //
 // Decided at every copy whose destination is an open-ended slice (buf[k:]) of a []byte made in the same
-// function and in the same loop iteration; destinations with an explicit upper end (a field inside an aggregation buffer) are windows, not
+// function and in the same loop iteration, when it is the only such copy into that buffer; destinations with an explicit upper end (a field inside an aggregation buffer) are windows, not
 // tails, and are covered by the length-prefix contract.
 func copyFillHooks(c *Ctx, seen *int) *bounds.Hooks {
 	var mu sync.Mutex
@@ -75,6 +75,23 @@ func copyFillHooks(c *Ctx, seen *int) *bounds.Hooks {
 		// the buffer belongs to this fragment: allocated in the same iteration as the copy (a buffer made before a
 		// loop that copies several units into it one after the other is an aggregation buffer with a cursor)
 		if lp := loopsOf(fn); lp[mk.Block()] != lp[call.Block()] {
+			return
+		}
+		// a buffer that receives several units one behind the other (the STAP-A built in an exactly sized buffer)
+		// has more than one open-ended copy: each is a window, not the tail
+		nOpen := 0
+		for _, ref := range *mk.Referrers() {
+			s2, ok := ref.(*ssa.Slice)
+			if !ok || s2.High != nil {
+				continue
+			}
+			for _, r2 := range *s2.Referrers() {
+				if c2, ok := r2.(*ssa.Call); ok && core.BuiltinName(c2) == "copy" && c2.Call.Args[0] == ssa.Value(s2) {
+					nOpen++
+				}
+			}
+		}
+		if nOpen != 1 {
 			return
 		}
 		ld, ls := d.Len(dst), d.Len(src)
